@@ -1035,6 +1035,17 @@ def serverAuthSchemes (h : HttpResp) : List Str :=
 
 def basicOffered (h : HttpResp) : Bool := (serverAuthSchemes h).contains "Basic".toList
 
+/-- mirrors wbem_request: the optional WBEMServerResponseTime header. `float(value) / 1000000`; a value
+    `float()` rejects counts as if the header were absent (never passed on as a string).  Result: the bits
+    of `float(value)` (before the division), `none` = `last_server_response_time` stays None -/
+def serverResponseTime (C : EnvCodec) (h : HttpResp) : Option UInt64 :=
+  match httpLayer h with
+  | .error _ => none                       -- wbem_request raised: the attribute keeps its reset value None
+  | .ok () =>
+    match headerGet h.headers "WBEMServerResponseTime" with
+    | none => none
+    | some v => C.parseFloat (strip v)
+
 /-- outcome of an operation with the data the exception carries -/
 structure Outcome where
   res : R Res
